@@ -43,6 +43,9 @@ impl AsRef<dyn Shape> for dyn Shape { fn as_ref(&self) -> &(dyn Shape + 'static)
 impl AsMut<dyn Shape> for dyn Shape { fn as_mut(&mut self) -> &mut (dyn Shape + 'static) { Box::leak(Box::new(Tri)) } }
 pub type DynAlias = dyn Shape;
 pub fn fat(t: &Tag) -> (usize, usize) { (t.0.as_ptr() as usize, t.0.len()) }
+/// a collection that can only be iterated by reference
+#[derive(Debug, PartialEq, Clone)] pub struct OnlyRef(pub Vec<u32>);
+impl<'a> IntoIterator for &'a OnlyRef { type Item = &'a u32; type IntoIter = ::core::slice::Iter<'a, u32>; fn into_iter(self) -> Self::IntoIter { self.0.iter() } }
 // DECOYS: inherent methods named like the delegated traits' methods, same signatures, doing something else.  Method-call
 // syntax (`field.deref()`) prefers them; the fully qualified call the property demands (`Deref::deref(&field)`) never sees them.
 #[allow(clippy::should_implement_trait)]
@@ -345,6 +348,16 @@ pub fn run(r: &mut R) {
     r.eq("AsMut<str> forwards to the unsized field's own impl", (<U as AsMut<str>>::as_mut(u).as_ptr() as usize, <U as AsMut<str>>::as_mut(u).len()), want);
 }"""
     cases.append(Case("c%d" % len(cases), mod, meta={"derive": "AsRef+AsMut unsized field, listed foreign type", "src": "#[derive(AsRef, AsMut)] struct U(#[as_ref(str)] #[as_mut(str)] Tag);"}))
+    # `ref` alone picks the by-reference impl only ("You can pick any combination of owned, ref and ref_mut"): it must work for a field
+    # that is not iterable by value.  KNOWN FINDING (c14-ref-only-selection-also-generates-owned): an owned impl is generated as well.
+    for k, decl in enumerate(("#[into_iterator(ref)] pub struct S(pub OnlyRef);", "pub struct S(#[into_iterator(ref)] pub OnlyRef, pub u8);", "#[into_iterator(ref)] pub struct S { pub a: OnlyRef }")):
+        mod = """use super::*;
+#[derive(derive_more::IntoIterator)] %s
+pub fn run(r: &mut R) {
+    let s = %s;
+    r.eq("shared iteration of a field that is only iterable by reference", (&s).into_iter().copied().collect::<Vec<u32>>(), vec![1, 2]);
+}""" % (decl, "S(OnlyRef(vec![1, 2]))" if k == 0 else ("S(OnlyRef(vec![1, 2]), 0)" if k == 1 else "S { a: OnlyRef(vec![1, 2]) }"))
+        cases.append(Case("c%d" % len(cases), mod, meta={"derive": "IntoIterator ref only, field not iterable by value", "src": "#[derive(IntoIterator)] " + decl, "known": "c14-ref-only-selection-also-generates-owned"}))
     # raw identifier field names
     for d, attr in (("Deref", "deref"), ("AsRef", "as_ref")):
         st = St(2, 1, True, False, "Inner", lambda i: "inner(%d)" % (10 * (i + 1)), raw=True)
@@ -375,7 +388,7 @@ def run(chk, tier):
         chk.outcome("%s/%s" % (res.compile, res.run))
         if res.compile != "ok":
             msgs = sorted({re.sub(r"c\d+::", "", d["message"]) for d in res.diags})
-            chk.violation("compile-error %s: %s" % (c.meta["derive"], msgs[0][:90]), c.meta["src"], "; ".join(msgs[:4]))
+            chk.violation("compile-error %s: %s" % (c.meta["derive"], msgs[0][:90]), c.meta["src"], "; ".join(msgs[:4]), known_id=c.meta.get("known"))
         else:
             first = res.detail.split("::", 1)[-1].strip().split(":")[0]
             chk.violation("wrong-result %s: %s" % (c.meta["derive"], first[:70]), c.meta["src"], res.detail)
